@@ -22,7 +22,7 @@ LEVEL = "exploration"
 RULE = (
     "RuleBasedStateMachine histories of up to 40 candidate updates on one (X, G, mats) memory, n=1..12, maxcor=1..10: rules accepted_update (y = A s + non-convex perturbation keeping s.y>0, "
     "A a drawn SPD matrix), rejected_update (reversed gradient, zero step, y with negative projection on s), marginal_update (y = (c/eps) s with c around 1, i.e. s.y within a factor 2 of eps*y.y, "
-    "and near-orthogonal y whose decision is observed rather than predicted); invariants after every step. Plus the update sequences intercepted in real runs (failed line searches, update functions). "
+    "and near-orthogonal y whose decision is observed rather than predicted); invariants after every step. Plus the update sequences intercepted in real runs (failed line searches, update functions that really rewrite the gradients) and restarts with a reduced maxcor (the memory refilled from the checkpoint must keep the newest pairs). "
     "non-trivial = the history has >=1 rejection after >=1 acceptance and >=1 overflow of the memory; distinct = distinct operation sequence"
 )
 ASSUMPTIONS = [
@@ -388,8 +388,46 @@ def run_strategy(draw):
     return {"problem": r["problem"], "cfg": r["cfg"], "upd": draw(st.booleans())}
 
 
+def restart_keeps_newest(spec, stats):
+    """'The oldest pair is the one discarded when the memory is full' also when the memory is refilled from a
+    checkpoint with a smaller maxcor: the restarted memory must hold the checkpoint's newest pairs."""
+    from vf.observe import run_min
+    from vf.props.c06 import check_pairs
+    from vf.specs import build
+
+    rspec = spec["run"]
+    prob = build(rspec["problem"])
+    cfg = dict(rspec["cfg"])
+    first = run_min(prob, cfg)
+    if first.exc is not None:
+        raise first.exc
+    npairs = first.res["sk"].shape[0]
+    if npairs < 2:
+        stats.case(spec, False, ["src=restart", "too-few-pairs"])
+        return
+    m2 = max(1, min(spec["m2"], npairs - 1))
+    c2 = dict(cfg)
+    c2["maxcor"] = m2
+    c2["maxiter"] = first.res["nit"]
+    rs = run_min(prob, c2, checkpoint=first.result, x0=np.array(first.result.x, copy=True))
+    if rs.exc is not None:
+        raise Violation("restart-accepted", f"restart raised {type(rs.exc).__name__}: {rs.exc}")
+    check_pairs(first.res, rs.res, m2, "oldest-discarded-at-restart")
+    stats.case(spec, npairs - m2 >= 2, ["src=restart", f"dropped={min(npairs - m2, 3)}"], sample={"pairs_in_checkpoint": npairs, "maxcor_at_restart": m2})
+
+
+@st.composite
+def restart_strategy(draw):
+    from vf.runspec import run_spec
+    from vf.specs import ALL_FAMILIES
+
+    r = draw(run_spec(families=ALL_FAMILIES, n_max=8, jac_modes=("callable",), maxiter=(3, 20), maxfun=(400, 400), ftols=(0.0,), gtols=(1e-10,), maxcor_max=10))
+    return {"run": r, "m2": draw(st.integers(1, 8))}
+
+
 def shard(ctx):
     ctx.machine("histories", make_machine, ctx.pick(1500, 40000), 40)
+    ctx.hyp("restart-keeps-newest", restart_strategy(), restart_keeps_newest, ctx.pick(1200, 20000))
     ctx.hyp("in-run", run_strategy(), intercepted_body, ctx.pick(600, 10000))
     from vf.props.c13 import switch_strategy
 
@@ -397,7 +435,11 @@ def shard(ctx):
 
 
 def replay(spec):
-    if "ops" in spec:
+    if "m2" in spec:
+        from vf.core import Stats
+
+        restart_keeps_newest(spec, Stats())
+    elif "ops" in spec:
         apply_ops(spec, None)
     else:
         from vf.core import Stats
